@@ -914,11 +914,14 @@ func (r *Remote) addReferenceIfRefSpecMatches(rs config.RefSpec,
 		return nil
 	}
 
-	if forceWithLease != nil {
-		if err = r.checkForceWithLease(localRef, cmd, forceWithLease); err != nil {
-			return err
-		}
-	} else if !rs.IsForceUpdate() {
+	leased, err := r.checkForceWithLease(localRef, cmd, forceWithLease)
+	if err != nil {
+		return err
+	}
+
+	// A lease only forces the references it protects; any other reference
+	// is still subject to the usual rules.
+	if !leased && !rs.IsForceUpdate() {
 		if err := checkTagUpdate(cmd); err != nil {
 			return err
 		}
@@ -931,7 +934,13 @@ func (r *Remote) addReferenceIfRefSpecMatches(rs config.RefSpec,
 	return nil
 }
 
-func (r *Remote) checkForceWithLease(localRef *plumbing.Reference, cmd *packp.Command, forceWithLease *ForceWithLease) error {
+// checkForceWithLease reports whether cmd is protected by the lease, and
+// fails if it is and the remote value is not the expected one.
+func (r *Remote) checkForceWithLease(localRef *plumbing.Reference, cmd *packp.Command, forceWithLease *ForceWithLease) (bool, error) {
+	if forceWithLease == nil {
+		return false, nil
+	}
+
 	remotePrefix := fmt.Sprintf("refs/remotes/%s/", r.Config().Name)
 
 	ref, err := storer.ResolveReference(
@@ -939,22 +948,24 @@ func (r *Remote) checkForceWithLease(localRef *plumbing.Reference, cmd *packp.Co
 		plumbing.ReferenceName(remotePrefix+strings.ReplaceAll(localRef.Name().String(), "refs/heads/", "")),
 	)
 	if err != nil {
-		return err
+		return false, err
 	}
 
-	if forceWithLease.RefName.String() == "" || (forceWithLease.RefName == cmd.Name) {
-		expectedOID := ref.Hash()
-
-		if !forceWithLease.Hash.IsZero() {
-			expectedOID = forceWithLease.Hash
-		}
-
-		if cmd.Old != expectedOID {
-			return fmt.Errorf("non-fast-forward update: %s", cmd.Name.String())
-		}
+	if forceWithLease.RefName.String() != "" && forceWithLease.RefName != cmd.Name {
+		return false, nil
 	}
 
-	return nil
+	expectedOID := ref.Hash()
+
+	if !forceWithLease.Hash.IsZero() {
+		expectedOID = forceWithLease.Hash
+	}
+
+	if cmd.Old != expectedOID {
+		return false, fmt.Errorf("non-fast-forward update: %s", cmd.Name.String())
+	}
+
+	return true, nil
 }
 
 func checkTagUpdate(cmd *packp.Command) error {
